@@ -312,7 +312,7 @@ class Run:
             src = "%s\nDefinition cases : list (%s) := [\n%s\n].\nDefinition agree (c : %s) : bool :=\n%s.\n" % (
                 imports, ctype, ";\n".join(sh_lines), ctype, agree_body)
             src += ("Definition mism := Eval vm_compute in map fst (filter (fun ic => negb (agree (snd ic))) "
-                    "(combine (seq 0 (length cases)) cases)).\nPrint mism.\n")
+                    "(combine (seq 0 (List.length cases)) cases)).\nPrint mism.\n")
             f = os.path.join(self.work, "%s%d.v" % (name, k))
             with open(f, "w") as fh:
                 fh.write(src)
